@@ -412,3 +412,78 @@ def bcast_fn(text, features):
         raise AnchorLost("try_broadcast_user_function: statements outside the transcription rules")
     return ("fn try_broadcast_user_function(fxn_def: &FunctionDefinition, input_arg_values: &Vec<Value>, p: &mut Interpreter) -> (res: Result<Option<Value>, MechError>)\n"
             + BCAST_ENS + "{\n" + b + "\n}\n")
+
+
+# ---------------------------------------------------------------------------------------------------------------------
+# the tail-call loop of execute_user_function
+TAIL_MODEL = """
+// model for the tail-call loop of `execute_user_function` (src/interpreter/src/functions.rs): the match-arm body of a function runs in a loop; each
+// round opens a scope, binds the current arguments, runs the arms; a `Return` ends the call, a `TailCall` replaces the arguments.  What the arms do
+// with given arguments is an arbitrary function `arms(f, args)` (its own contract: C16.verus.execute_function_match_arms.*).
+#[derive(Clone, Copy, PartialEq, Eq, Structural)]
+pub struct Value { pub id: u64 }
+pub struct FunctionDefinition { pub id: u64 }
+pub struct Interpreter { pub depth: Ghost<int> }             // number of function scopes currently open
+pub struct MechError { pub id: u64 }
+pub struct FunctionScope { pub id: u64 }
+pub enum FunctionCallStep { Return(Value), TailCall(Vec<Value>) }
+pub enum StepV { Return(Value), TailCall(Seq<Value>), Fail }
+pub uninterp spec fn arms(f: u64, args: Seq<Value>) -> StepV;
+pub uninterp spec fn binds(f: u64, args: Seq<Value>) -> bool;   // bind_function_inputs succeeds
+impl FunctionScope {
+  #[verifier::external_body]
+  pub fn enter(p: &mut Interpreter) -> (s: FunctionScope) ensures final(p).depth@ == old(p).depth@ + 1, { unimplemented!() }
+}
+#[verifier::external_body]
+pub fn drop_scope(s: FunctionScope, p: &mut Interpreter) ensures final(p).depth@ == old(p).depth@ - 1, { unimplemented!() }       // drop(scope)
+#[verifier::external_body]
+pub fn bind_function_inputs(f: &FunctionDefinition, args: &Vec<Value>, p: &mut Interpreter) -> (r: Result<(), MechError>)
+  ensures final(p).depth@ == old(p).depth@, r is Ok == binds(f.id, args@),
+{ unimplemented!() }
+#[verifier::external_body]
+pub fn execute_function_match_arms(f: &FunctionDefinition, args: &Vec<Value>, p: &mut Interpreter) -> (r: Result<FunctionCallStep, MechError>)
+  ensures final(p).depth@ == old(p).depth@,
+    (match r { Ok(FunctionCallStep::Return(v)) => arms(f.id, args@) == StepV::Return(v), Ok(FunctionCallStep::TailCall(n)) => arms(f.id, args@) == StepV::TailCall(n@), Err(_) => arms(f.id, args@) is Fail }),
+{ unimplemented!() }
+#[verifier::external_body]
+pub fn clone_args(v: &Vec<Value>) -> (r: Vec<Value>) ensures r@ == v@, { unimplemented!() }
+// ---- THE CONTRACT (C16): the result is what the recurrence defines -- a chain of argument lists, each the tail call of the previous one, ending in a Return
+pub open spec fn unfolds(f: u64, chain: Seq<Seq<Value>>, v: Value) -> bool {
+  chain.len() > 0 && (forall|i: int| 0 <= i < chain.len() ==> binds(f, #[trigger] chain[i]))
+  && (forall|i: int| 0 <= i < chain.len() - 1 ==> arms(f, #[trigger] chain[i]) == StepV::TailCall(chain[i + 1]))
+  && arms(f, chain[chain.len() - 1]) == StepV::Return(v)
+}
+pub open spec fn is_recurrence_value(f: u64, args: Seq<Value>, v: Value) -> bool { exists|chain: Seq<Seq<Value>>| chain.len() > 0 && chain[0] == args && unfolds(f, chain, v) }
+"""
+
+
+def tail_loop_fn(text):
+    """(F) `execute_user_function`: the statements `let mut current_args = input_arg_values.clone(); loop { .. }` of the match-arm branch.  The fragment's value is the loop's value, so
+    `break X` -> `return X`; `drop(scope)` -> `drop_scope(scope, p)` (the model counts open scopes); `input_arg_values.clone()` -> `clone_args(input_arg_values)`; the type annotation
+    of `step` is kept.  Termination is NOT claimed (a `loop` without measure: partial correctness)."""
+    sig, body = extract_fn(text, "execute_user_function")
+    b0 = re.sub(r"//[^\n]*", "", body).replace("\r", "")
+    a = find_code(b0, r"let\s+mut\s+current_args\s*:\s*Vec<Value>\s*=\s*input_arg_values\.clone\(\)\s*;")
+    if not a:
+        raise AnchorLost("execute_user_function: `let mut current_args: Vec<Value> = input_arg_values.clone();` not found")
+    ml = re.match(r"\s*loop\s*\{", b0[a.end():])
+    if not ml:
+        raise AnchorLost("execute_user_function: the tail-call `loop` does not follow `current_args`")
+    e = match_brace(b0, a.end() + ml.end() - 1)
+    b = b0[a.start():e]
+    b = b.replace("input_arg_values.clone()", "clone_args(input_arg_values)")
+    b = re.sub(r"\bdrop\(\s*scope\s*\)", "drop_scope(scope, p)", b)
+    b, n = re.subn(r"\bbreak\s+(Ok\(\s*\w+\s*\))\s*,", r"{ proof { assert(unfolds(fxn_def.id, chain, value)); } return \1; }", b)
+    INV = ("      invariant p.depth@ == old(p).depth@, chain.len() > 0, chain[0] == input_arg_values@, chain[chain.len() - 1] == current_args@,\n"
+           "        forall|i: int| 0 <= i < chain.len() - 1 ==> binds(fxn_def.id, #[trigger] chain[i]) && arms(fxn_def.id, chain[i]) == StepV::TailCall(chain[i + 1]),\n")
+    b, n2 = re.subn(r"\bloop\s*\{", "let ghost mut chain: Seq<Seq<Value>> = seq![current_args@];\n    loop\n" + INV + "    {", b, count=1)
+    b, n3 = re.subn(r"(current_args\s*=\s*next_args\s*;)", r"proof { chain = chain.push(next_args@); }\n          \1", b)
+    if (n, n2, n3) != (1, 1, 1) or re.search(r"\bbreak\b", b):
+        raise AnchorLost("execute_user_function: the tail-call loop is outside the transcription rules %r" % ((n, n2, n3),))
+    return ("#[verifier::exec_allows_no_decreases_clause]\nfn tail_call_loop(fxn_def: &FunctionDefinition, input_arg_values: &Vec<Value>, p: &mut Interpreter) -> (res: Result<Value, MechError>)\n"
+            "  ensures res matches Ok(v) ==> is_recurrence_value(fxn_def.id, input_arg_values@, v),\n"
+            "    // every round closes the scope it opened (on the paths that do not fail)\n    res is Ok ==> final(p).depth@ == old(p).depth@,\n{\n    " + b + "\n}\n")
+
+
+def tail_unit(text):
+    return vlib.verus_file([TAIL_MODEL, tail_loop_fn(text), vlib.verus_canary("canary_tail", "x: u64", [])])
